@@ -46,7 +46,9 @@ def make_qe(d):
         return d["value"]
     if d["kind"] == "vector":
         return np.array(d["value"])
-    return Spectrum(d["w_nm"] * rs.factor("nm", d["unit"]), d["v"].copy(), waveunit=d["unit"])
+    from checks import common as cm
+    s = Spectrum(d["w_nm"] * rs.factor("nm", d["unit"]), d["v"].copy(), waveunit=d["unit"])
+    return cm.derive_obj(s, len(d["w_nm"]) + int(abs(float(d["v"][0])) * 1000))[0]
 
 
 def qe_values(d, wave_nm):
@@ -198,8 +200,8 @@ def bayer(case, ctx):
 # --- ADC ---------------------------------------------------------------------------------------------
 
 @st.composite
-def adc_case(draw, tier):
-    shape = draw(gen.shape2(1, 10))
+def adc_case(draw, tier, mega=False):
+    shape = draw(gen.mega_shape()) if mega else draw(gen.shape2(1, 10))
     k = draw(st.integers(0, 2**31 - 1))
     rng = np.random.default_rng(k)
     sat = draw(st.sampled_from([None, None, 500, 4000.5, 65000]))
@@ -234,6 +236,19 @@ def adc_case(draw, tier):
 
 
 def ref_poly(e, gain, form, order):
+    if np.size(e) > 200000:
+        # frames of a million pixels: float64 evaluation (relative error ~1e-15; pixels whose polynomial lies within
+        # 1e-9 of an integer are skipped anyway)
+        e = np.asarray(e, dtype=float)
+        if form == "scalar":
+            return float(gain) * e
+        if form == "pixel":
+            return np.asarray(gain, dtype=float) * e
+        g = np.asarray(gain, dtype=float)
+        out = np.zeros(e.shape)
+        for d in range(order):
+            out = out + g[d] * e ** (order - d)
+        return out
     e = np.asarray(e, dtype=np.longdouble)
     if form == "scalar":
         return np.longdouble(gain) * e
@@ -306,6 +321,14 @@ def adc(case, ctx):
                         f"(electrons {img[i] if i else '?'})")
     if np.any(np.asarray(out, dtype=float) < 0):
         raise Violation("C16.adc.negative", "negative digital number")
+
+
+@hyp("C16", "adc_mega", lambda tier: adc_case(tier, mega=True),
+     "adc on frames of more than 2^20 pixels (1030..3000 rows/columns, sizes of no special form), all four gain forms",
+     examples=(6, 24), budget_s=(150, 700))
+def adc_mega(case, ctx):
+    ctx.tag("mega")
+    adc(case, ctx)
 
 
 @st.composite
